@@ -6,7 +6,7 @@
    CI: integer MdotV/MDOTV on values up to 2^62: the float64 product of the generic member and the wrap-around of the
    concrete one (mdotv_int_generic, mdotv_int_concrete of C09.ModelM); a row the model excludes (implementation-defined float->int) is not compared. *)
 From Coq Require Import ZArith List Bool.
-From ADV Require Import Base.Corr C11.Model C03.Model C03.ModelM C09.ModelM.
+From ADV Require Import Base.Corr C11.Model C03.Model C03.ModelM C09.ModelM C09.ModelMD.
 Import ListNotations.
 Open Scope Z_scope.
 
@@ -38,6 +38,14 @@ Definition check_concrete (c : mcase) : bool :=
   | CM y setup p _ cout => out_eqb (mout (mstep_concrete y (run4 y init4 setup) p)) cout
   | CI n m a b _ conc => list_eqb Z.eqb (mdotv_int_concrete n m a b) conc
   end.
-Definition check (c : mcase) : bool := check_generic c && check_concrete c.
+(* the loop-level generic members of the product pairs (C09.ModelMD, written from the Go text of MdotM / MdotV / VdotM)
+   against what the GENERIC Go method did *)
+Definition check_generic_loop (c : mcase) : bool :=
+  match c with
+  | CM y setup p gout _ =>
+      match mstep_generic_loop (run4 y init4 setup) p with Some o => out_eqb (mout o) gout | None => true end
+  | CI _ _ _ _ _ _ => true
+  end.
+Definition check (c : mcase) : bool := check_generic c && check_concrete c && check_generic_loop c.
 Definition mism (cs : list mcase) : list nat := mismatches check cs.
 Definition mism2 (cs : list mcase) : list nat * list nat := (mismatches check_generic cs, mismatches check_concrete cs).
